@@ -55,6 +55,16 @@ def execute(case):
         bucket, msg, k = r["inv_fail"]
         fails.append((bucket, msg))
         failing_case = {"setup": case.get("setup", 1), "safe": case.get("safe", False), "ops": case["ops"][: k + 1]}
+    if not fails and r["raised"]:
+        # the history held every relation after every call; a rejected call may still have disturbed IR-private bookkeeping
+        # (reference counters of the input/output lists), which shows in the relations only under later edits: one fixed
+        # tail of accepted edits, the invariants again
+        from vlib import invariants
+
+        U.stress_tail(r["u"])
+        errs = invariants.check_all(r["u"])
+        if errs:
+            fails.append((f"{errs[0][0]}/after-later-edits", f"after the history (rejected calls: {r['raised']}) and a fixed tail of accepted edits: {errs[0][1]}"[:400]))
     nontrivial = r["mutating"] >= 2 and (
         r["raised"] > 0 or r["multi_role"] or r["dup_entry"] or r["moved"]
     )
